@@ -9,10 +9,72 @@
 -/
 namespace Gotree.C10
 
+/-- one side of a comparison of the source -/
+inductive Ex where
+  | var (i : Nat)
+  | lit (n : Int)
+  | div (a b : Ex)
+  | add (a b : Ex)
+  | sub (a b : Ex)
+  | opaque (s : String)
+  deriving DecidableEq, Repr
+
+/-- a comparison of the source: operator, sides, and its shape (operators, literals, conversions and
+    upper-case constants kept, any other operand `_`) -/
+structure Cmp where
+  op : String
+  l : Ex
+  r : Ex
+  shape : String
+  deriving DecidableEq, Repr
+
+/-- Go integer arithmetic (`/` truncates) -/
+def Ex.eval (env : Nat → Int) : Ex → Option Int
+  | .var i => some (env i)
+  | .lit n => some n
+  | .div a b => match a.eval env, b.eval env with
+    | some x, some y => if y == 0 then none else some (Int.tdiv x y)
+    | _, _ => none
+  | .add a b => match a.eval env, b.eval env with
+    | some x, some y => some (x + y)
+    | _, _ => none
+  | .sub a b => match a.eval env, b.eval env with
+    | some x, some y => some (x - y)
+    | _, _ => none
+  | .opaque _ => none
+
+def Cmp.eval (c : Cmp) (env : Nat → Int) : Option Bool :=
+  match c.l.eval env, c.r.eval env with
+  | some x, some y =>
+    if c.op == "<" then some (decide (x < y)) else if c.op == "<=" then some (decide (x ≤ y))
+    else if c.op == ">" then some (decide (x > y)) else if c.op == ">=" then some (decide (x ≥ y))
+    else if c.op == "==" then some (x == y) else if c.op == "!=" then some (x != y) else none
+  | _, _ => none
+
+/-- the probes: every pair of values of the first two variables in -2 … 7 -/
+def probes : List (Nat → Int) :=
+  (List.range 10).flatMap fun (a : Nat) => (List.range 10).map fun (b : Nat) =>
+    fun (i : Nat) => if i == 0 then ((a : Nat) : Int) - 2 else if i == 1 then ((b : Nat) : Int) - 2 else ((a + b : Nat) : Int) - 4
+
+/-- the first two variables exchanged (their numbering follows the spelling of the operands: a renamed
+    variable may exchange them) -/
+def swapEnv (e : Nat → Int) : Nat → Int := fun i => if i == 0 then e 1 else if i == 1 then e 0 else e i
+
+/-- the same predicate: equal on every probe (up to the numbering of the two variables) when both are integer
+    comparisons, else the same shape -/
+def Cmp.same (a b : Cmp) : Bool :=
+  if probes.all (fun e => (a.eval e).isSome && (b.eval e).isSome) then
+    (probes.all fun e => a.eval e == b.eval e) || (probes.all fun e => a.eval e == b.eval (swapEnv e))
+  else a.shape == b.shape
+
+def sameRows : List (String × List Cmp) → List (String × List Cmp) → Bool
+  | [], [] => true
+  | (f, as) :: r, (g, bs) :: r' => f == g && as.length == bs.length && (List.zipWith Cmp.same as bs).all id && sameRows r r'
+  | _, _ => false
+
 structure Facts where
-  /-- function ↦ its comparisons (nil tests left out), in source order, as shapes: operators, literals,
-      conversions and upper-case constants kept, any other operand `_` -/
-  cmps : List (String × List String)
+  /-- function ↦ its comparisons (nil tests left out), in source order -/
+  cmps : List (String × List Cmp)
   /-- function ↦ the set of its numeric literals (sorted) -/
   lits : List (String × List String)
   /-- [command function, callee, arguments…] in source order -/
@@ -21,7 +83,11 @@ structure Facts where
   flags : List (List String)
   /-- [constant, value] -/
   consts : List (List String)
-  deriving DecidableEq, Repr
+  deriving Repr
+
+/-- the extracted facts are the expected ones: the comparisons as predicates (`Cmp.same`), the rest literally -/
+def Facts.agree (a b : Facts) : Bool :=
+  sameRows a.cmps b.cmps && a.lits == b.lits && a.calls == b.calls && a.flags == b.flags && a.consts == b.consts
 
 /-- what the model was written against.  Where each row lives in the model:
     FBP `cpus < 1` → `atLeastOne`; `td > 1` (with `!Right().Tip()`) → `supported`;
@@ -37,14 +103,14 @@ structure Facts where
     consts: `NIL` of Model/Core.lean. -/
 def expected : Facts := {
   cmps := [
-    ("FBP", ["_ < 1", "_ > _", "_ < _", "_ > 1"]),
-    ("MinTransferDist", ["_ == 1", "_ < _"]),
-    ("speciesToMoveRecursive", ["_ == _", "_ == 0", "_ == 1", "_ == _", "_ == 0", "_ != _"]),
-    ("minTransferDistRecur", ["_ > _ / 2", "_ != _", "_ > _ / 2", "_ < _", "_ <= _", "_ == 1"]),
-    ("TBE", ["_ < 1", "_ < _", "_ > 1", "_ >= _", "_ > 0"]),
-    ("ReformatAvgDistance", ["_ != NIL_SUPPORT"]),
-    ("NormalizeTransferDistancesByDepth", ["_ != NIL_SUPPORT"]),
-    ("UpdateTaxaMoveArrays", ["_ <= _", "_ >= _"])
+    ("FBP", [⟨"<", (.var 0), (.lit 1), "_ < 1"⟩, ⟨">", (.var 0), (.var 1), "_ > _"⟩, ⟨"<", (.var 0), (.var 1), "_ < _"⟩, ⟨">", (.var 0), (.lit 1), "_ > 1"⟩]),
+    ("MinTransferDist", [⟨"==", (.var 0), (.lit 1), "_ == 1"⟩, ⟨"<", (.var 1), (.var 0), "_ < _"⟩]),
+    ("speciesToMoveRecursive", [⟨"==", (.var 1), (.var 0), "_ == _"⟩, ⟨"==", (.var 0), (.lit 0), "_ == 0"⟩, ⟨"==", (.var 0), (.lit 1), "_ == 1"⟩, ⟨"==", (.var 0), (.var 1), "_ == _"⟩, ⟨"==", (.var 0), (.lit 0), "_ == 0"⟩, ⟨"!=", (.var 0), (.var 1), "_ != _"⟩]),
+    ("minTransferDistRecur", [⟨">", (.var 1), (.div (.var 0) (.lit 2)), "_ > _ / 2"⟩, ⟨"!=", (.var 0), (.var 1), "_ != _"⟩, ⟨">", (.var 0), (.div (.var 1) (.lit 2)), "_ > _ / 2"⟩, ⟨"<", (.var 1), (.var 0), "_ < _"⟩, ⟨"<=", (.var 1), (.var 0), "_ <= _"⟩, ⟨"==", (.var 0), (.lit 1), "_ == 1"⟩]),
+    ("TBE", [⟨"<", (.var 0), (.lit 1), "_ < 1"⟩, ⟨"<", (.var 0), (.var 1), "_ < _"⟩, ⟨">", (.var 0), (.lit 1), "_ > 1"⟩, ⟨">=", (.var 1), (.var 0), "_ >= _"⟩, ⟨">", (.var 0), (.lit 0), "_ > 0"⟩]),
+    ("ReformatAvgDistance", [⟨"!=", (.var 0), (.opaque "NIL_SUPPORT"), "_ != NIL_SUPPORT"⟩]),
+    ("NormalizeTransferDistancesByDepth", [⟨"!=", (.var 0), (.opaque "NIL_SUPPORT"), "_ != NIL_SUPPORT"⟩]),
+    ("UpdateTaxaMoveArrays", [⟨"<=", (.var 1), (.var 0), "_ <= _"⟩, ⟨">=", (.var 1), (.var 0), "_ >= _"⟩])
   ],
   lits := [
     ("FBP", ["0", "0.75", "1", "100", "2"]),
